@@ -216,6 +216,9 @@ def run(ctx):
                 t = loop.create_task(h.command("getEui64"))
                 return t
 
+            # (a stray copy of exactly the reply the next command will get arrives first, while nothing is pending: it is an unsolicited
+            # frame; the command's own reply - the same bytes - still completes the command)
+            e.frame_received(ezsplib.spec_header(version, 7, h.COMMANDS["getEui64"][0]) + bytes(range(8)))
             task = loop.create_task(h.command("getEui64"))
             loop.settle()
             e.frame_received(ezsplib.spec_header(version, 7, h.COMMANDS["getEui64"][0]) + bytes(range(8)))
